@@ -1,4 +1,4 @@
-import RsslVerif.Lemmas.GenMslSim
+import RsslVerif.Lemmas.GenMslWorld
 /-!
 # C02, semantic half — the Metal exporter preserves the meaning of the scalar subset
 
@@ -89,6 +89,105 @@ theorem gen_sem_args {W : World} {M : Msl.MWorld} {env : Ast.Env} {cx : Ctx} {vi
       | none => none
       | some (l, σ1) => some (l.map toMArg ++ globMArgs gs, σ1) :=
   sim_argsM hag hw es as ps _ _ _ hg hargs hok (globalArgs_eval hag gs hvis)
+
+
+/-! ## meaning preservation: statements, functions, the trampoline, programs -/
+
+/-- **statements** (expression statement, declaration, block, if, if/else, for with every kind of init, while, do-while,
+break, continue, return, `switch`, `case` and `default` labels): same control-flow outcome and same store, from every
+store, for every fuel and every way of entering the statement (executing, or looking for the `case`/`default` label of
+the enclosing `switch`).  A `case` label written as an `IntLiteral` is an `int` or a `long` constant in Metal; converted
+to the type of the controlling expression it selects the same case. -/
+theorem gen_sem_stmt {W : World} {M : Msl.MWorld} {env : Ast.Env} {cx : Ctx} {vis : Var → Bool} {rsv : Nat → List Var}
+    (hag : AgreeM cx vis env) (hw : Worlds cx rsv W M) (rt : Ty) (lt : Option Ty)
+    (s : Ir.Stmt) (s' : HlslAst.Stmt) (hg : genStmt cx s = .ok s')
+    (hwt : Ir.wtStmtM (side cx W vis rsv) rt lt s = true) (m : Mode) (hm : Lemmas.GenSem.ModeOK lt m) :
+    ∀ fuel σ, Msl.exec M env rt fuel m s' σ = Ir.exec W fuel m s σ :=
+  sim_stmtM hag hw rt s s' lt hg hwt m hm
+
+/-- **statement lists** = `generate_scope_block`, including its label handling -/
+theorem gen_sem_stmts {W : World} {M : Msl.MWorld} {env : Ast.Env} {cx : Ctx} {vis : Var → Bool} {rsv : Nat → List Var}
+    (hag : AgreeM cx vis env) (hw : Worlds cx rsv W M) (rt : Ty) (lt : Option Ty)
+    (b : Ir.Stmts) (b' : HlslAst.Stmts) (hg : genStmts cx b = .ok b')
+    (hwt : Ir.wtStmtsM (side cx W vis rsv) rt lt b = true) (m : Mode) (hm : Lemmas.GenSem.ModeOK lt m) :
+    ∀ fuel σ, Msl.execs M env rt fuel m b' σ = Ir.execs W fuel m b σ := by
+  intro fuel σ
+  have := sim_accM hag hw rt b .nil b' lt hg hwt m hm fuel σ
+  rw [this]
+  cases m <;> simp [Msl.execs, endOf, Lemmas.GenSem.bindS]
+
+/-- **functions** — the definition that carries the source body (a function that needs no trampoline, or the target of
+one: `target`): run by the Metal semantics with by-value arguments for the `in` parameters, *references to the
+parameter slots* for the out/inout parameters (which hold the argument values: `Preset`), the tag if it is a target, and
+references to the statics it needs, it returns what the typed function returns and leaves the store the typed function
+leaves (the slots the layout reclaims at return aside).  The statics are reachable only through the reference
+parameters: they are not in the frame (`AgreeL`), so a static that was not threaded would not resolve. -/
+theorem gen_sem_func {W : World} {M : Msl.MWorld} {cx : Ctx} {L : Msl.Layout} {rsv : Nat → List Var} {vis0 : Var → Bool}
+    {fn : Ir.Func} {mfn : MslAst.Func} {gs : List Nat} {target : Bool}
+    (hL : AgreeL cx L fn vis0) (hw : Worlds cx rsv W M) (hreq : cx.req fn.id = some gs)
+    (hinj : ∀ x y, visWith vis0 gs x = true → visWith vis0 gs y = true → cx.name x = cx.name y → x = y)
+    (hnd : (fn.params.map (·.1)).Nodup) (hg : genFuncInner cx fn target false = .ok mfn)
+    (hwt : Ir.wtStmtsM (side cx W (visWith vis0 gs) rsv) fn.ret none fn.body = true) :
+    ∀ fuel vals σ, vals.length = fn.params.length → Preset fn.params vals σ →
+      Msl.callFunc M L fuel mfn (slotArgs fn.params vals ++ ((if target then [Msl.MArg.tag] else []) ++ globMArgs gs)) σ =
+        (Ir.callFunc W fuel fn vals σ).map (fun r => (r.1, Msl.restore (L.scratch (cx.funcName fn.id)) σ r.2.2)) :=
+  sim_funcM hL hw hreq hinj hnd hg hwt
+
+/-- **`trampoline_copy_semantics`**: the emitted trampoline (`generate_function_out_trampoline_body`), called through
+references — by-value arguments `v` for the `in` parameters, *arbitrary caller variables* `x` for the out/inout parameters
+(they may be equal to one another, to a static the function also receives, anything outside the trampoline's own
+slots), references to the statics — evaluates its arguments' variables at the moment of the call (`valsIn`: copy-in),
+runs the typed function on its own copies (the target's specification `hT`, discharged by `gen_sem_func`), and writes
+the final parameter values back to the variables **in parameter order** on top of the function's final store
+(`writeBack`: copy-out) — exactly the copy-in/copy-out call of the typed semantics, whatever aliasing there is among the
+arguments.  (`out` parameters enter with whatever their slot holds: `T __p;` has no initialiser.) -/
+theorem trampoline_copy_semantics {W : World} {cx : Ctx} {L : Msl.Layout} {fn : Ir.Func} {gs : List Nat} {xo : Var}
+    (hA : AgreeT cx L fn gs xo) (M : Msl.MWorld) (fuel : Nat) (t : MslAst.Func)
+    (hreq : cx.req fn.id = some gs) (hg : genFuncInner cx fn false true = .ok t)
+    (htyP : ∀ p ∈ fn.params, cx.vty (.loc p.1) = p.2.2)
+    (hsig : M.msig fn.id true = some (fn.ret, mParamsOf fn.params ++ (Msl.PK.tag, Ty.void) :: globParams cx gs))
+    (hT : ∀ σ', M.mphi fn.id true (slotArgs fn.params (fn.params.map fun p => σ' (.loc p.1)) ++ Msl.MArg.tag :: globMArgs gs) σ' =
+      (Ir.callFunc W fuel fn (fn.params.map fun p => σ' (.loc p.1)) σ').map (fun r => (r.1, Msl.restore [xo] σ' r.2.2)))
+    (l : CArgs) (hok : ArgsOK cx.vty (slotsOf fn.params) xo fn.params l) :
+    ∀ σ, Msl.callFunc M L fuel t (l.map toMArg ++ globMArgs gs) σ =
+      match Ir.callFunc W fuel fn (valsIn fn.params l σ) σ with
+      | none => none
+      | some (ret, finals, σ1) =>
+        some (if fn.ret = .void then Val.void else ret, Msl.restore [xo] σ (writeBack (l.map (·.2)) finals σ1)) :=
+  trampoline_copy hA M fuel t hreq hg htyP hsig hT l hok
+
+/-- **programs**: with the callee semantics no longer a parameter.  For every call depth `d`, every loop fuel, every
+interpretation of the primitives: a call of a function of the emitted Metal program (the overload callers see), with
+values for the `in` parameters, variables for the out/inout parameters and references to the statics the function
+needs, returns what the typed function returns when entered with the current values of those variables, and leaves the
+typed function's final store with the final parameter values written back to the variables in order.
+
+`_partial`: the three semantic assumptions `SemOK` about the typed functions that get a trampoline are hypotheses, not
+derived here — (1) the result does not depend on the entry value of an `out` parameter (a source program that reads an
+`out` parameter before writing it has no defined meaning; no definite-assignment analysis is formalised); (2) a `void`
+function returns no value; (3) the typed function does not touch the trampoline's scratch slot `out` (true when that slot
+is not a variable of the program; the frame lemma for `Ir.exec` that would derive it from a syntactic condition is
+not proved). -/
+theorem gen_sem_program_partial {cx : Ctx} {L : Msl.Layout} {prog : List Ir.Func} {mprog : List MslAst.Func}
+    {rsv : Nat → List Var} {xo : Nat → Var} {vis0 : Nat → Var → Bool} {P : Prim} {fuel : Nat}
+    (hP : ProgOK cx L prog mprog rsv xo vis0) (hS : ∀ d, SemOK cx P prog fuel xo d) (d : Nat)
+    (f : Nat) (rt : Ty) (ps : List (Dir × Ty)) (gs : List Nat) (l : List (Val × Option Var)) (σ : Store)
+    (hsig : Ir.sigOf prog f = some (rt, ps)) (hreq : cx.req f = some gs) (hcalled : cx.called f = true)
+    (hfit : fitsB cx.vty ps l = true) (hrsv : ∀ p ∈ l, ∀ x, p.2 = some x → (rsv f).contains x = false) :
+    Msl.phi P L mprog fuel d f false (l.map toMArg ++ globMArgs gs) σ =
+      match Ir.phi P prog fuel d f (l.map (valAt σ)) σ with
+      | none => none
+      | some (ret, finals, σ2) => some (ret, writeBack (l.map (·.2)) finals σ2) :=
+  (worlds_prog hP hS d).call f rt ps gs l σ hsig hreq hcalled hfit hrsv
+
+/-- …and the signatures a C++ front end reads off the emitted definitions are the typed ones followed by references to
+the statics -/
+theorem gen_sem_signatures {cx : Ctx} {L : Msl.Layout} {prog : List Ir.Func} {mprog : List MslAst.Func}
+    {rsv : Nat → List Var} {xo : Nat → Var} {vis0 : Nat → Var → Bool}
+    (hP : ProgOK cx L prog mprog rsv xo vis0) (f : Nat) (rt : Ty) (ps : List (Dir × Ty)) (gs : List Nat)
+    (hsig : Ir.sigOf prog f = some (rt, ps)) (hreq : cx.req f = some gs) :
+    Msl.sigOf L mprog f false = some (rt, mParams ps ++ globParams cx gs) :=
+  msig_false hP hsig hreq
 
 
 end RsslVerif.Thm.C02Sem
